@@ -352,6 +352,26 @@ def run_check(mod):
             v2 = {'invariant': res['invariant'], 'sig': res['sig'], 'detail': res.get('detail', {})}
         else:   # cannot happen when execution is deterministic; keep the original
             small, v2 = v['plan'], v
+        # A plan can hit two open findings at once, so that neither differential classifier
+        # recognises it; the minimised plan (same violation signature) isolates one.  The group is
+        # attributed to that finding only if EVERY member (at most 8) minimises into it.
+        fid = kf.classify(mod, dict(v2, plan=small))
+        if fid is not None and len(unknown[key]) <= 8:
+            ok = True
+            for other in unknown[key]:
+                if other is v:
+                    continue
+                s2, _ = shrink(mod, other['plan'], other['sig'], other.get('detail'), budget=150)
+                r2 = safe_execute(mod, s2)
+                if r2['status'] != 'violation' or kf.classify(mod, {'plan': s2, 'invariant': r2['invariant'],
+                                                                     'sig': r2['sig'], 'detail': r2.get('detail', {})}) != fid:
+                    ok = False
+                    break
+            if ok:
+                known_counts[fid] = known_counts.get(fid, 0) + len(unknown[key])
+                n_viol -= len(unknown[key])
+                print('known-finding (after minimisation): %s x%d sig=%s' % (fid, len(unknown[key]), key))
+                continue
         path = write_replay(mod, small, v2, minimized_from=P.short(v['plan']))
         lines.append('VIOLATION property=%s replay=%s' % (mod.ID, path))
         print('violation: %s x%d sig=%s shrink_execs=%d' % (v2['invariant'], len(unknown[key]), key, used))
